@@ -70,7 +70,7 @@ CHECKS.update({
    note=PURE_NOTE),
  "C14": dict(engine="c14", cat="exploration", ref="DESIGN.md 4/C14",
    tech="runtime monitoring: generated registration sequences and all their single-step edits hashed by freshly built Apps (and by a second process), equality oracle hash-equality <=> sequence-equality; ProtocolCheck handshake outcome monitor",
-   text="Sequences of 0..8 registration actions out of 25 plus every neighbour swap, deletion, insertion and replacement; equal sequences must hash equal in-process and across processes, different ones must differ; per case two real handshakes (equal and edited pair) check authorization / mismatch notification / disconnect request.",
+   text="Sequences of 0..8 registration actions out of 25 plus every neighbour swap, deletion, insertion and replacement; equal sequences must hash equal in-process and across processes, different ones must differ; per case real handshakes (equal and edited pair, half of them through a Connecting phase, and one client app over three sessions: compatible, edited, compatible server) check authorization / mismatch notification / disconnect request per session.",
    note=PURE_NOTE + " A genuine 64-bit collision would show up as a violation; none is expected at this scale."),
  "C15": dict(engine="c15", cat="exploration", ref="DESIGN.md 4/C15",
    tech="runtime monitoring of the public codec functions: round trip + exact consumption over boundary classes x random identifiers with trailing bytes; totality over byte strings (exhaustive <=2/<=3 bytes, random/mutated <=12) under catch_unwind, cross-checked with an independent decoder; release + overflow-check lanes",
